@@ -12,7 +12,7 @@ var baseNS = time.Date(2000, 1, 1, 0, 0, 0, 0, time.UTC).UnixNano()
 
 // step is one action of a history. Everything is materialised (no PRNG at run time).
 type step struct {
-	Op  string `json:"op"` // set inc patch del sleep evict read
+	Op  string `json:"op"` // set inc patch del sleep evict read | claim RPCs: pexp shexp shmatch shkeys
 	Key string `json:"key,omitempty"`
 
 	// set
@@ -30,6 +30,23 @@ type step struct {
 	SleepMS int64 `json:"sleepMs,omitempty"`
 
 	Read *readReq `json:"read,omitempty"`
+
+	// claim RPCs. pexp = PatchExpiredTreasures: Val "" = no Ops, else SET n := Val; Meta = a PatchMeta
+	// message is sent (StampUpdated / ET / ClearET as for patch); Cond = PatchCondition n < Cond.
+	// shexp = ShiftExpiredTreasures. shmatch = ShiftMatchingTreasures over Index/Desc/FromTime/ToTime.
+	// shkeys = ShiftByKeys(Keys).
+	HowMany  int32    `json:"howMany,omitempty"`
+	Meta     bool     `json:"meta,omitempty"`
+	Cond     string   `json:"cond,omitempty"`
+	Index    string   `json:"index,omitempty"`
+	Desc     bool     `json:"desc,omitempty"`
+	FromTime *int64   `json:"fromTime,omitempty"`
+	ToTime   *int64   `json:"toTime,omitempty"`
+	Keys     []string `json:"keys,omitempty"`
+}
+
+func isClaimOp(op string) bool {
+	return op == "pexp" || op == "shexp" || op == "shmatch" || op == "shkeys"
 }
 
 // hcase is one history.
@@ -37,6 +54,7 @@ type hcase struct {
 	Kind   string `json:"kind"` // value kind of the swamp, or "mixed"
 	InMem  bool   `json:"inMem,omitempty"`
 	Forced bool   `json:"forced,omitempty"` // a save arrives inside the cold build (hook swamp.buildBeacon.afterInit)
+	Claims bool   `json:"claims,omitempty"` // the history uses the claim RPCs (PatchExpired / Shift*)
 	Steps  []step `json:"steps"`
 }
 
@@ -98,13 +116,22 @@ var timePool = []int64{
 	int64(-time.Hour), int64(-24 * time.Hour), // already in the past for the bubble clock
 }
 
+// pastPool: expiry offsets that lie before the bubble clock (which only moves forward from
+// baseNS), so that the claim RPCs (selection criterion ExpiredAt < now) select something. Ties
+// and 1 ns neighbours included; the last two become "expired" after the first sleeps.
+var pastPool = []int64{
+	int64(-time.Hour), int64(-time.Hour), int64(-time.Hour) + 1, int64(-2 * time.Hour), int64(-30 * time.Minute),
+	int64(-24 * time.Hour), int64(-3 * time.Hour), int64(-time.Second), int64(-1), int64(time.Millisecond), int64(2 * time.Second),
+}
+
 type gen struct {
-	r     *rand.Rand
-	kind  string
-	keys  []string // key universe of the history
-	live  map[string]bool
-	now   int64 // predicted virtual clock offset from baseNS
-	stamp []int64
+	r      *rand.Rand
+	kind   string
+	keys   []string // key universe of the history
+	live   map[string]bool
+	now    int64 // predicted virtual clock offset from baseNS
+	stamp  []int64
+	claims bool // the history uses the claim RPCs: expiry times are biased into the past
 }
 
 func pick[T any](r *rand.Rand, l []T) T { return l[r.IntN(len(l))] }
@@ -114,6 +141,14 @@ func (g *gen) ts() int64 {
 		return baseNS + pick(g.r, g.stamp)
 	}
 	return baseNS + pick(g.r, timePool)
+}
+
+// ets is an expiry time: in claim histories half of them lie before virtual now.
+func (g *gen) ets() int64 {
+	if g.claims && g.r.IntN(2) == 0 {
+		return baseNS + pick(g.r, pastPool)
+	}
+	return g.ts()
 }
 
 func (g *gen) recKind() string {
@@ -135,8 +170,8 @@ func (g *gen) setStep(key string) step {
 	if g.r.IntN(10) < 7 {
 		s.UT = g.ts()
 	}
-	if g.r.IntN(10) < 6 {
-		s.ET = g.ts()
+	if g.r.IntN(10) < 6 || (g.claims && g.r.IntN(2) == 0) {
+		s.ET = g.ets()
 	}
 	g.live[key] = true
 	return s
@@ -185,12 +220,12 @@ func (g *gen) moveStep() (step, bool) {
 			case 0:
 				s.StampUpdated = true
 			case 1:
-				s.ET = g.ts()
+				s.ET = g.ets()
 			case 2:
 				s.ClearET = true
 			default:
 				s.StampUpdated = true
-				s.ET = g.ts()
+				s.ET = g.ets()
 			}
 			if s.StampUpdated {
 				g.stamp = append(g.stamp, g.now)
@@ -204,7 +239,7 @@ func (g *gen) moveStep() (step, bool) {
 				s.StampUpdated = true
 				g.stamp = append(g.stamp, g.now)
 			case 1:
-				s.ET = g.ts()
+				s.ET = g.ets()
 			}
 			return s, true
 		}
@@ -247,6 +282,9 @@ func (g *gen) deleteStep() (step, bool) {
 }
 
 func (g *gen) indexFor(mismatch bool) string {
+	if g.claims && g.r.IntN(5) == 0 {
+		return idxET // the index the claim RPCs select from and put back into
+	}
 	vi := valueIndexOfKind[g.kind]
 	x := g.r.IntN(100)
 	switch {
@@ -285,8 +323,85 @@ func (g *gen) bound() *int64 {
 		v = baseNS + int64(g.r.Int64N(int64(4*time.Hour)))
 	default:
 		v = baseNS + pick(g.r, timePool) // equal to a record's timestamp with high probability
+		if g.claims && g.r.IntN(3) == 0 {
+			v = baseNS + pick(g.r, pastPool)
+		}
 	}
 	return &v
+}
+
+// claimStep is one call of a claim RPC. HowMany stays small so that records remain.
+func (g *gen) claimStep() step {
+	switch x := g.r.IntN(10); {
+	case x < 5:
+		s := step{Op: "pexp", HowMany: pick(g.r, []int32{1, 1, 2, 2, 3, 0})}
+		if g.r.IntN(4) != 0 {
+			s.Val = pick(g.r, valuePool("bytes"))
+		}
+		switch g.r.IntN(7) {
+		case 0, 1: // ops only
+		case 2: // Meta that does not touch ExpiredAt
+			s.Meta = true
+			s.StampUpdated = g.r.IntN(2) == 0
+		case 3: // the lease pattern: slide ExpiredAt into the future
+			s.Meta = true
+			s.ET = g.ts()
+		case 4: // ExpiredAt moves but stays expired (or lands on another record's)
+			s.Meta = true
+			s.ET = baseNS + pick(g.r, pastPool)
+			s.StampUpdated = g.r.IntN(3) == 0
+		case 5:
+			s.Meta = true
+			s.ClearET = true
+		default:
+			s.Meta = true
+			s.StampUpdated = true
+			s.ET = g.ets()
+		}
+		if s.Val == "" && !s.Meta { // "Empty Ops is allowed only when Meta is non-nil"
+			s.Meta = true
+		}
+		if s.StampUpdated {
+			g.stamp = append(g.stamp, g.now)
+		}
+		if g.r.IntN(6) == 0 {
+			s.Cond = pick(g.r, valuePool("bytes"))
+		}
+		return s
+	case x < 7:
+		return step{Op: "shexp", HowMany: 1 + g.r.Int32N(2)}
+	case x < 9:
+		s := step{Op: "shmatch", Index: g.indexFor(false), Desc: g.r.IntN(2) == 0, HowMany: 1 + g.r.Int32N(2)}
+		if isTimeIndex(s.Index) && g.r.IntN(3) == 0 {
+			a, b := g.bound(), g.bound()
+			if *a > *b {
+				a, b = b, a
+			}
+			switch g.r.IntN(3) {
+			case 0:
+				s.FromTime = a
+			case 1:
+				s.ToTime = b
+			default:
+				s.FromTime, s.ToTime = a, b
+			}
+		}
+		return s
+	default:
+		s := step{Op: "shkeys"}
+		lk := g.liveKeys()
+		nk := 1 + g.r.IntN(2)
+		for i := 0; i < nk && len(lk) > 0; i++ {
+			k := pick(g.r, lk)
+			s.Keys = append(s.Keys, k)
+			delete(g.live, k)
+			lk = g.liveKeys()
+		}
+		if len(s.Keys) == 0 || g.r.IntN(4) == 0 {
+			s.Keys = append(s.Keys, "nosuchkey")
+		}
+		return s
+	}
 }
 
 func (g *gen) subset() []string {
@@ -383,9 +498,18 @@ func genCase(r *rand.Rand, reads int) hcase {
 	default:
 		g.kind = allKinds[r.IntN(len(allKinds))]
 	}
-	hc := hcase{Kind: g.kind, InMem: r.IntN(3) == 0}
+	// half of the histories use the claim RPCs; a third of those run on msgpack bodies, the only
+	// kind PatchExpiredTreasures can actually patch (everything else is reported TYPE_MISMATCH)
+	g.claims = r.IntN(2) == 0
+	if g.claims && r.IntN(3) == 0 {
+		g.kind = "bytes"
+	}
+	hc := hcase{Kind: g.kind, InMem: r.IntN(3) == 0, Claims: g.claims}
 	perm := r.Perm(len(keyPool))
 	nk := 4 + r.IntN(10)
+	if g.claims {
+		nk = 6 + r.IntN(10)
+	}
 	for _, i := range perm[:nk] {
 		g.keys = append(g.keys, keyPool[i])
 	}
@@ -397,6 +521,9 @@ func genCase(r *rand.Rand, reads int) hcase {
 	}
 	// phase 0: initial contents (sometimes nothing: index read on a missing swamp)
 	n0 := r.IntN(9)
+	if g.claims {
+		n0 = 3 + r.IntN(8)
+	}
 	if r.IntN(12) == 0 {
 		n0 = 0
 	}
@@ -405,6 +532,9 @@ func genCase(r *rand.Rand, reads int) hcase {
 		if r.IntN(4) == 0 {
 			add(g.sleepStep(), true)
 		}
+	}
+	if g.claims && r.IntN(3) == 0 {
+		add(g.claimStep(), true) // a claim on cold indexes: the claim RPC builds the pair
 	}
 	left := reads
 	phase := 0
@@ -430,7 +560,32 @@ func genCase(r *rand.Rand, reads int) hcase {
 		// writes of the next phase: inserts, moves, deletes, sleeps, an occasional eviction
 		nw := 1 + r.IntN(5)
 		mode := r.IntN(4) // 0 inserts only, 1 moves only, 2 deletes+inserts, 3 anything
-		for i := 0; i < nw; i++ {
+		// claim histories: 0..2 claim calls per write phase, before, between or after the other
+		// writes; one phase in five consists of the claim call(s) alone
+		claimAt := map[int]int{}
+		if g.claims {
+			switch r.IntN(5) {
+			case 0:
+			case 1:
+				nw = 0
+				claimAt[0] = 1 + r.IntN(2)
+			default:
+				nc := 1 + r.IntN(2)
+				for j := 0; j < nc; j++ {
+					claimAt[r.IntN(nw+1)]++
+				}
+			}
+		}
+		for i := 0; i <= nw; i++ {
+			for j := 0; j < claimAt[i]; j++ {
+				add(g.claimStep(), true)
+				if r.IntN(4) == 0 {
+					add(g.sleepStep(), true)
+				}
+			}
+			if i == nw {
+				break
+			}
 			switch x := r.IntN(10); {
 			case mode == 0 || (mode == 3 && x < 4):
 				s, ok := g.insertStep()
@@ -458,6 +613,9 @@ func genCase(r *rand.Rand, reads int) hcase {
 		if !hc.InMem && r.IntN(12) == 0 {
 			add(step{Op: "evict"}, true)
 			g.now += int64(evictSleep)
+			if g.claims && r.IntN(2) == 0 {
+				add(g.claimStep(), true) // claim on the reloaded swamp, indexes cold
+			}
 		}
 	}
 	return hc
@@ -497,6 +655,56 @@ func fixedCases() []hcase {
 		// move the smallest to the middle
 		hc.Steps = append(hc.Steps, step{Op: "set", Key: keys[3], Kind: k, Val: vp[len(vp)/2], CT: baseNS + 2*h + 7, UT: baseNS + 2*h + 7, ET: baseNS + 4*h + 7})
 		reads()
+		out = append(out, hc)
+	}
+	return out
+}
+
+// fixedClaimCases: one history per value kind in which every claim RPC is applied to indexes that
+// are already built (and once to a reloaded swamp), each followed by full reads of every index in
+// both orders: PatchExpiredTreasures with ops only, with a Meta that leaves ExpiredAt alone, with
+// SetExpiredAt, with ClearExpiredAt; ShiftExpiredTreasures; ShiftMatchingTreasures; ShiftByKeys.
+func fixedClaimCases() []hcase {
+	var out []hcase
+	h := int64(time.Hour)
+	for _, k := range allKinds {
+		vp := valuePool(k)
+		hc := hcase{Kind: k, Claims: true}
+		// five expired records (e0 oldest), two that expire later, two without expiry
+		keys := []string{"d", "b", "zz", "a", "m", "k", "c", "y", "q"}
+		for i, key := range keys {
+			s := step{Op: "set", Key: key, Kind: k, Val: vp[(i*2+1)%len(vp)], CT: baseNS + h*int64(1+(i*4)%9), UT: baseNS + h*int64(1+(i*7)%9)}
+			switch {
+			case i < 5:
+				s.ET = baseNS - h*int64(10-i)
+			case i < 7:
+				s.ET = baseNS + h*int64(i)
+			}
+			hc.Steps = append(hc.Steps, s)
+		}
+		idx := []string{idxKey, idxCT, idxUT, idxET}
+		if vi := valueIndexOfKind[k]; vi != "" {
+			idx = append(idx, vi)
+		}
+		reads := func() {
+			for _, ix := range idx {
+				hc.Steps = append(hc.Steps, fullRead(ix, false, false), fullRead(ix, true, true))
+			}
+		}
+		claim := func(s step) {
+			hc.Steps = append(hc.Steps, s)
+			reads()
+		}
+		reads()
+		claim(step{Op: "pexp", HowMany: 2, Val: "3"})
+		claim(step{Op: "pexp", HowMany: 3, Meta: true, StampUpdated: true})
+		claim(step{Op: "pexp", HowMany: 1, Val: "4", Meta: true, ET: baseNS + 5*h})
+		claim(step{Op: "pexp", HowMany: 1, Meta: true, ClearET: true})
+		claim(step{Op: "shexp", HowMany: 1})
+		claim(step{Op: "shmatch", Index: idx[len(idx)-1], Desc: true, HowMany: 1})
+		claim(step{Op: "shkeys", Keys: []string{"k", "nosuchkey"}})
+		hc.Steps = append(hc.Steps, step{Op: "evict"})
+		claim(step{Op: "pexp", HowMany: 1, Val: "5"})
 		out = append(out, hc)
 	}
 	return out
